@@ -9,6 +9,39 @@ mod ownable;
 #[path = "/repo/examples/nft-access-control/src/contract.rs"]
 mod nftac;
 
+/// The ownable example's entry points with `#[only_owner]` on a method of a trait implementation (exported, but not
+/// `pub` in the source), driven through the example's generated client.
+mod ownlab {
+    use soroban_sdk::{contract, contractimpl, Address, Env};
+    use stellar_access::ownable::{set_owner, Ownable};
+    use stellar_macros::only_owner;
+
+    #[contract]
+    pub struct OwnLab;
+
+    pub trait Counter {
+        fn increment(e: &Env) -> i32;
+    }
+
+    #[contractimpl]
+    impl OwnLab {
+        pub fn __constructor(e: &Env, owner: Address) {
+            set_owner(e, &owner);
+        }
+    }
+
+    #[contractimpl]
+    impl Counter for OwnLab {
+        #[only_owner]
+        fn increment(e: &Env) -> i32 {
+            1
+        }
+    }
+
+    #[contractimpl(contracttrait)]
+    impl Ownable for OwnLab {}
+}
+
 const ACCTS: [&str; 3] = ["a", "b", "c"];
 const MAX_TTL: u32 = 20;
 const NOW0: u32 = 10;
@@ -23,14 +56,16 @@ struct Sys {
     names: Names,
     c: Address,
     fl: Flavour,
+    lab: bool,
 }
 
 impl Sys {
-    fn new(flavour: &str) -> Sys {
+    fn new(flavour: &str, lab: bool) -> Sys {
         let e = new_env(&LedgerCfg { seq: NOW0, min_temp: 1, min_persistent: 1_000_000, max_ttl: MAX_TTL });
         let names = Names::new(&e, &ACCTS);
         let a = names.get("a");
         let (c, fl) = match flavour {
+            "ownable" if lab => (e.register(ownlab::OwnLab, (a,)), Flavour::Ownable),
             "ownable" => (e.register(ownable::ExampleContract, (a,)), Flavour::Ownable),
             "access" => (
                 e.register(
@@ -41,7 +76,7 @@ impl Sys {
             ),
             f => panic!("flavour {f}"),
         };
-        Sys { e, names, c, fl }
+        Sys { e, names, c, fl, lab }
     }
 
     fn holder(&self) -> String {
@@ -116,7 +151,7 @@ impl Sys {
 }
 
 fn reset_event(sys: &Sys, flavour: &str) -> Value {
-    json!({"op": {"op": "reset", "new": "none", "until": 0, "auth": [], "dt": 0, "flavour": flavour},
+    json!({"op": {"op": "reset", "new": "none", "until": 0, "auth": [], "dt": 0, "flavour": flavour, "lab": sys.lab},
            "now": NOW0, "res": "ok", "err": 0, "obs": {"holder": sys.holder()}})
 }
 
@@ -124,13 +159,14 @@ fn main() {
     match cli() {
         Mode::Exec { input, output } => {
             let mut t = Trace::create(&output);
-            for b in read_behaviours(&input) {
+            for (bi, b) in read_behaviours(&input).iter().enumerate() {
                 let flavours: Vec<String> = match b.cfg.get("flavour").and_then(|v| v.as_str()) {
                     Some(f) => vec![f.to_string()],
                     None => vec!["ownable".into(), "access".into()],
                 };
                 for fl in flavours {
-                    let mut sys = Sys::new(&fl);
+                    let lab = b.cfg.get("lab").and_then(|v| v.as_bool()).unwrap_or(bi % 2 == 1);
+                    let mut sys = Sys::new(&fl, lab);
                     t.reset(reset_event(&sys, &fl));
                     for op in &b.ops {
                         let ev = sys.step(op);
@@ -145,7 +181,7 @@ fn main() {
             let mut r = StdRng::seed_from_u64(seed);
             for run in 0..runs {
                 let fl = if run % 2 == 0 { "ownable" } else { "access" };
-                let mut sys = Sys::new(fl);
+                let mut sys = Sys::new(fl, (run / 2) % 2 == 1);
                 t.reset(reset_event(&sys, fl));
                 for _ in 0..len {
                     let now = seq(&sys.e) as i64;
